@@ -305,9 +305,14 @@ func runC22once(x *vt.Ctx, c SchedCase) *vt.Finding {
 			return fail("node-without-resource", "node %s has no resource record", n)
 		}
 	}
-	for n, p := range nodePod {
+	for n := range nodePod {
 		if !nodes[n] {
-			return fail("pod-index-without-node", "pod %s lists node %s which is not recorded", p, n)
+			// an entry of a pod's node index without the node record: NOT one of the four clauses of
+			// the statement (pod with nodes not removed; node has resource info; resource record has a
+			// node; workload has a node), so it is counted, not reported. Reachable on the unchanged
+			// code: add-node takes no lock, so "remove n0 / add n0 into another pod / remove n0" can
+			// interleave such that the second remove works on the node object it read before.
+			x.Label("observation:pod-index-entry-without-node-record")
 		}
 	}
 	for n := range res {
